@@ -369,6 +369,7 @@ class Parallel:
                 _logger.debug("Worker '%s' has been created with PID %d", worker_name, worker.pid)
 
             last_task_ts = time.monotonic()
+            drained = False  # the pool was already found empty in an earlier iteration
             while True:
                 exc = None
                 worker_name = None
@@ -426,9 +427,13 @@ class Parallel:
                         for result in self._run_callbacks(in_thread_result)
                     ]
 
-                if not pool and (queue_empty or self.tasks_done >= len(device_ids)):
-                    # all workers are gone: stop only when nothing is left in done_queue
-                    break
+                if not pool:
+                    # all workers are gone: stop only when nothing is left in done_queue.  A timed-out
+                    # get() proves that only if the pool was already empty before that get() started:
+                    # a worker may put its last results and exit between the timeout and _check_children
+                    if self.tasks_done >= len(device_ids) or (queue_empty and drained):
+                        break
+                    drained = True
 
                 for name in retired_workers:
                     _logger.debug("Worker '%s' has retired. Restart it", name)
